@@ -600,6 +600,17 @@ Fixpoint c09_guard_trace (s : vsock) (ops : list vop) : bool :=
        if poll_finished out then true else c09_guard_trace s' rest)
   end.
 
+(* index of the first step of a scenario that leaves the guard (for the report) *)
+Fixpoint c09_guard_first_bad (s : vsock) (ops : list vop) (i : Z) : option Z :=
+  match ops with
+  | [] => None
+  | o :: rest =>
+      if c09_guard_vstep s o then
+        let '(s', out, _, _) := vstep cci s o in
+        if poll_finished out then None else c09_guard_first_bad s' rest (i + 1)
+      else Some i
+  end.
+
 End Guard.
 
 (* the guard of a whole scenario for the CUBIC instance (what the correspondence check can evaluate
@@ -612,5 +623,10 @@ Definition c09_guard_trace_cubic (c : vconfig) (ops : list vop) : bool :=
   match vsock_new_cubic cbrt powf3 c with
   | Some s => c09_guard_trace (cubic_iface cbrt powf3) s ops
   | None => true
+  end.
+Definition c09_guard_first_bad_cubic (c : vconfig) (ops : list vop) : option Z :=
+  match vsock_new_cubic cbrt powf3 c with
+  | Some s => c09_guard_first_bad (cubic_iface cbrt powf3) s ops 0
+  | None => None
   end.
 End CubicGuard.
